@@ -256,18 +256,19 @@ IJ("C03.timeout", "C03", "h_timeout", ["iauth_check_request"], functions=["iauth
 HANDLER_CALLEES = ["iauth_check_request", "iauth_send"]
 for h, fn in (("hostname", "parse_hostname"), ("no_hostname", "parse_no_hostname"), ("nick", "parse_nick"), ("ident", "parse_ident"),
               ("user_info", "parse_user_info"), ("password", "parse_password"), ("hurry_up", "parse_hurry_up")):
-    IJ("C03.parse_" + h, "C03", "h_parse_" + h, HANDLER_CALLEES, functions=[fn], extra_props=("C01", "C06"),
+    IJ("C03.parse_" + h, "C03", "h_parse_" + h, HANDLER_CALLEES, functions=[fn], extra_props=("C01", "C06", "C07"),
        cbmc=["--unwindset", "copy_ok.0:81,strncpy.0:81"])
 
+PROPS["C07"] = dict(level="other", explanation="write-frame and addressing part of the hyperproperty only: every step on one client leaves every other client's request, its per-module record and the other services' records untouched and emits nothing naming another client; the read-independence half (emitted text does not depend on shared counters) has no contract form in CBMC and is argued in DESIGN 5 C07")
 PROPS["C10"] = dict(level="proof", explanation="table bookkeeping: real handlers over the real set.c with the real disposal callback; timers by contract (S3)")
 TABLE_UNW = ["--unwind", "4", "--unwindset", "model_set_clear:2,sm_dispose:2,iauth_req_cleanup:2,set_clear:2,strchr.0:12"]
 SETM = ["set_first", "set_find", "set_insert", "set_remove", "set_clear"]
 SET_ASSUME = ["set.c is used through its contract (sorted map with disposal, spec/set_model.h); discharged for the real set.c in the C19 jobs, bounded by N elements"]
-IJ("C10.parse_registered", "C10", "h_parse_registered", ["iauth_send"] + SETM, assumptions=SET_ASSUME, functions=["parse_registered", "iauth_req_cleanup"], extra_props=("C01",), cbmc=TABLE_UNW, defines=["SET_MODEL_MAX=3"])
+IJ("C10.parse_registered", "C10", "h_parse_registered", ["iauth_send"] + SETM, assumptions=SET_ASSUME, functions=["parse_registered", "iauth_req_cleanup"], extra_props=("C01", "C07"), cbmc=TABLE_UNW, defines=["SET_MODEL_MAX=3"])
 IJ("C10.parse_disconnect", "C10", "h_parse_registered", ["iauth_send"] + SETM, assumptions=SET_ASSUME, functions=["parse_disconnect", "iauth_req_cleanup"], defines=["DISCONNECT", "SET_MODEL_MAX=3"],
    extra_props=("C01",), cbmc=TABLE_UNW)
 IJ("C10.parse_new_client", "C10", "h_parse_new_client", ["iauth_send"] + SETM, assumptions=SET_ASSUME, functions=["parse_new_client", "iauth_req_cleanup"],
-   extra_props=("C01", "C04"), cbmc=TABLE_UNW, timeout=1500, defines=["SET_MODEL_MAX=3"])
+   extra_props=("C01", "C04", "C07"), cbmc=TABLE_UNW, timeout=1500, defines=["SET_MODEL_MAX=3"])
 
 XQ_CALLEES = ["iauth_validate_request", "iauth_routing", "iauth_kill", "iauth_challenge", "iauth_user_mode", "iauth_check_request",
               "iauth_x_query", "iauth_send"] + SETM
@@ -275,12 +276,12 @@ XQ_UNW = ["--unwind", "5", "--unwindset", "bytes_eq.0:513,strcmp.0:5,strncmp.0:8
 PROPS["C04"] = dict(level="model_checking", explanation="reply routing: validate/routing round trip and the empty frame of non-awaited replies")
 PROPS["C05"] = dict(level="model_checking", explanation="verdict content: per reply kind postconditions of the reply handler and of iauth_accept")
 IJ("C03.xq_x_reply", "C03", "h_xq_x_reply", XQ_CALLEES, harness="harness/h_iauth_xq.c", functions=["iauth_xquery_x_reply", "iauth_xquery_x_unlinked", "iauth_xquery_set_account", "iauth_xquery_unref"],
-   extra_props=("C02", "C04", "C05"), cbmc=XQ_UNW, assumptions=SET_ASSUME, bound="service table of 3 slots, names of <= 2 bytes, reply text <= 39 bytes", cls="bounded", timeout=1800, cost=20)
+   extra_props=("C02", "C04", "C05", "C07"), cbmc=XQ_UNW, assumptions=SET_ASSUME, bound="service table of 3 slots, names of <= 2 bytes, reply text <= 39 bytes", cls="bounded", timeout=1800, cost=20)
 
 PROPS["C06"] = dict(level="model_checking", explanation="query builder and password shape check by per-function postconditions over the ghost query log; bounded copies in the core handlers")
 IJ("C06.xq_check", "C06", "h_xq_check", XQ_CALLEES, harness="harness/h_iauth_xq.c", functions=["iauth_xquery_check", "iauth_xquery_user_info"],
    extra_props=("C02", "C03"), cbmc=["--unwind", "9", "--unwindset", "bytes_eq.0:513,strcmp.0:5,strncmp.0:8,model_x_query.0:13,model_x_query.1:12,spec_username.0:13,spec_username.1:11,spec_username.2:11,spec_username.3:11,strncpy.0:13"],
-   assumptions=SET_ASSUME, bound="service table of 2 slots", cls="bounded", timeout=2400, cost=20, defines=["NSRV=2"], solver=os.environ.get("XQSOLVER", "kissat"), mem=24)
+   assumptions=SET_ASSUME, bound="service table of 2 slots", cls="bounded", timeout=2400, cost=20, defines=["NSRV=2"], solver=os.environ.get("XQSOLVER", "minisat"), mem=24)
 
 PROPS["C09"] = dict(level="model_checking", explanation="single formatter iauth_send proved against the line format with the printf model; address text via C12; log channel separation in C18/C09.log")
 IO_UNW = ["--unwind", "14", "--unwindset", "put_str.0:41,fputs.0:130,iauth_send.0:5,memset.0:600"]
@@ -333,11 +334,11 @@ PROPS["C20"] = dict(level="model_checking", explanation="real module.c over ever
 def _c20_jobs(tier, seed):
     m = 3 if tier == "quick" else 4
     return [dict(id="C20.graph.M%d" % m, prop="C20", cls="bounded", bound="%d stub modules, every dependency matrix (2^%d graphs), 1-2 modules named in the configuration in any order" % (m, m * m),
-                 srcs=["src/common.c"], stubs=["stubs/tramp_set.c", "stubs/printf_model.c"], harness="harness/h_module.c", entry="h_module_graph",
+                 srcs=["src/common.c"], stubs=["stubs/printf_model.c"], harness="harness/h_module.c", entry="h_module_graph",
                  defines=["MODS=%d" % m, "SET_MODEL_MAX=%d" % (m + 1)], checks=["ptr"],
 
                  cbmc=["--unwind", str(m + 2), "--unwinding-assertions", "--object-bits", "10", "--no-malloc-may-fail",
-                       "--unwindset", "sm_dispose:2,module_cleanup:2,strcasecmp.0:4,strlen.0:4,strcpy.0:4,vsnprintf.0:12,vsnprintf.1:6,const_string_vector_remove.0:%d" % (2 * m + 2)], solver="kissat",
+                       "--unwindset", "dispose:2,module_cleanup:2,strcasecmp.0:4,strlen.0:4,strcpy.0:4,vsnprintf.0:12,vsnprintf.1:6,const_string_vector_remove.0:%d" % (2 * m + 2)], solver="kissat",
                  functions=["module_load_list", "module_load", "module_depends", "module_dfs", "module_close_all", "module_cleanup", "module_get", "const_string_vector_remove"],
                  assumptions=["S4 dlopen/dlsym/dlclose by model: stub modules whose constructors call the real module_depends",
                               "module table through the set contract (spec/set_model.h), discharged for set.c in C19"],
@@ -379,11 +380,11 @@ CJ("C14.parse_whitespace.len8", "C14", "h_parse_whitespace", functions=["conf_pa
 CJ("C15.replace_inaddr", "C15", "h_replace_inaddr", functions=["conf_replace_value"], extra_props=("C14",), bound="", cls="proof",
    cbmc=["--unwind", "4", "--unwindset", "strcasecmp.0:4,conf_replace_value:1,conf_object_cleanup:2,model_set_clear:2,sm_dispose:2,set_clear:2"])
 
-PROPS["C17"] = dict(level="model_checking", explanation="service-table rebuild from any previous table; rule compilation; hook delivery of the merge (known finding: in-place edits)")
+PROPS["C17"] = dict(level="model_checking", explanation="service-table rebuild executed for every small section x previous table (exhaustive enumeration); merge-side hook delivery: known finding F13")
 IJ("C17.xq_services_changed", "C17", "h_xq_services_changed", ["iauth_send", "iauth_check_request"] + SETM, harness="harness/h_iauth_xq.c",
-   functions=["iauth_xquery_services_changed", "iauth_xquery_config_service", "iauth_xquery_unref"], cls="bounded", bound="section of <= 2 services, previous table of <= 2 slots",
-   cbmc=["--unwind", "6", "--unwindset", "strcmp.0:4,strcasecmp.0:12,strlen.0:4,strcpy.0:4,memset.0:120"], assumptions=SET_ASSUME, timeout=1800, cost=8, solver="kissat", mem=30)
-
+   functions=["iauth_xquery_services_changed", "iauth_xquery_config_service", "iauth_xquery_unref"], cls="bounded",
+   bound="every section of 0-2 services (4 protocols or an unknown word) x every previous table of 0-2 slots (hole / sA / sB / sC, configured or only referenced): exhaustive concrete enumeration",
+   cbmc=["--unwind", "7", "--object-bits", "16", "--unwindset", "strcmp.0:4,strcasecmp.0:12,strlen.0:4,strcpy.0:4,memset.0:120"], assumptions=SET_ASSUME, timeout=2400, cost=8, mem=24)
 # =========================================================================== log.c (C18, C09)
 PROPS["C18"] = dict(level="model_checking", explanation="severity-set parser against the mathematical set for every 1-2 item expression; message fan-out per destination; rescan not under contract")
 LOG_STUBS = ["stubs/tramp_set.c", "stubs/printf_model.c", "stubs/strto_model.c", "stubs/stdout_model.c"]
